@@ -34,6 +34,7 @@ type c13Case struct {
 	FKind string `json:"fault,omitempty"`
 	Short int    `json:"short,omitempty"`
 	Lvl   int    `json:"level,omitempty"`
+	Pat   int    `json:"write_pattern,omitempty"`
 }
 
 var c13Mu = seqioMu // the device is process-global: one case at a time
@@ -54,6 +55,15 @@ func c13Body(id int) []byte {
 		// incompressible, multi-block (> 64 KiB)
 		b := make([]byte, 70000)
 		x := uint32(12345)
+		for i := range b {
+			x = x*1664525 + 1013904223
+			b[i] = byte(x >> 24)
+		}
+		return b
+	case 5:
+		// incompressible, larger than one 4 KiB block once compressed
+		b := make([]byte, 6000)
+		x := uint32(777)
 		for i := range b {
 			x = x*1664525 + 1013904223
 			b[i] = byte(x >> 24)
@@ -88,6 +98,61 @@ func c13Name(rsum, dsum []byte) string {
 }
 
 // c13Write runs the real create/write/close protocol on a fresh device.
+// c13Chunks cuts a body into the Write calls of pattern pat: 0 = 4096-byte chunks (a bufio.Writer),
+// 1 = a 37-byte write then the rest in one call, 2 = all but 37 bytes then the rest, 3 = five 1-byte writes then the rest,
+// 4 = 1000-byte writes.
+func c13Chunks(body []byte, pat int) [][]byte {
+	var out [][]byte
+	cut := func(sizes ...int) {
+		off := 0
+		for _, n := range sizes {
+			if n < 0 {
+				n = 0
+			}
+			if off+n > len(body) {
+				n = len(body) - off
+			}
+			if n > 0 {
+				out = append(out, body[off:off+n])
+			}
+			off += n
+		}
+		if off < len(body) {
+			out = append(out, body[off:])
+		}
+	}
+	switch pat {
+	case 1:
+		cut(37)
+	case 2:
+		cut(len(body) - 37)
+	case 3:
+		cut(1, 1, 1, 1, 1)
+	case 4:
+		for off := 0; off < len(body); off += 1000 {
+			end := off + 1000
+			if end > len(body) {
+				end = len(body)
+			}
+			out = append(out, body[off:end])
+		}
+	default:
+		for off := 0; off < len(body); off += 4096 {
+			end := off + 4096
+			if end > len(body) {
+				end = len(body)
+			}
+			out = append(out, body[off:end])
+		}
+	}
+	if len(out) == 0 {
+		out = [][]byte{{}}
+	}
+	return out
+}
+
+var c13Pattern = 0 // write pattern used by c13Write (set per case under c13Mu)
+
 func c13Write(id int, faults map[int]faultos.Fault) (fs *faultos.FS, name string, reported error, panicked string) {
 	fs = faultos.Reset()
 	for k, f := range faults {
@@ -108,17 +173,9 @@ func c13Write(id int, faults map[int]faultos.Fault) (fs *faultos.FS, name string
 			}
 			return
 		}
-		// the CLI writes through a bufio.Writer: chunks of <= 4096 bytes
-		for off := 0; off < len(body) || off == 0; off += 4096 {
-			end := off + 4096
-			if end > len(body) {
-				end = len(body)
-			}
-			if _, err := f.Write(body[off:end]); err != nil {
+		for _, chunk := range c13Chunks(body, c13Pattern) {
+			if _, err := f.Write(chunk); err != nil {
 				reported = err
-				break
-			}
-			if len(body) == 0 {
 				break
 			}
 		}
@@ -210,6 +267,27 @@ func c13FinishedUncached(id int) ([]byte, []faultos.WriteRec, string) {
 func c13Eval(c c13Case) (ok bool, sig, detail string) {
 	c13Mu.Lock()
 	defer c13Mu.Unlock()
+	if c.Kind == "pattern" {
+		// the entry written with another sequence of Write calls must deliver the same bytes
+		c13Pattern = c.Pat
+		fs, name, rep, pan := c13Write(c.Body, nil)
+		c13Pattern = 0
+		if rep != nil || pan != "" {
+			return false, "baseline", fmt.Sprintf("fault-free write with pattern %d failed: %v %s", c.Pat, rep, pan)
+		}
+		img := append([]byte(nil), fs.Files[name]...)
+		okj, sigj, detj := c13Judge(img, c.Body, fmt.Sprintf("body %d written with write pattern %d", c.Body, c.Pat))
+		if !okj {
+			return false, sigj, detj
+		}
+		fs2 := faultos.Reset()
+		fs2.Files[name] = img
+		r0, d0 := c13Sums(c.Body)
+		if _, openErr, _, _ := c13Open(r0, d0); openErr != nil {
+			return false, "baseline", fmt.Sprintf("body %d written with pattern %d does not open: %v", c.Body, c.Pat, openErr)
+		}
+		return true, "", ""
+	}
 	file, log, problem := c13Finished(c.Body)
 	if problem != "" {
 		return false, "baseline", problem
@@ -348,7 +426,7 @@ func init() {
 					r.Fail(engine.Failure{Sig: sig, Case: c, Detail: detail, Size: size})
 				}
 			}
-			bodies := []int{0, 1, 2, 4}
+			bodies := []int{0, 1, 2, 4, 5}
 			if r.Tier == "thorough" {
 				bodies = append(bodies, 3)
 			}
@@ -368,16 +446,22 @@ func init() {
 			r.Extra["io_operations"] = fmt.Sprint(opsN)
 			for _, b := range bodies {
 				eval(c13Case{Kind: "baseline", Body: b}, 0)
+				for pat := 1; pat <= 4; pat++ {
+					eval(c13Case{Kind: "pattern", Body: b, Pat: pat}, 1)
+				}
 				r.States.Add(1)
 				n := sizes[b]
 				// corruption
 				masks := []int{}
-				if n <= 300 {
+				switch {
+				case n <= 300:
 					for m := 1; m < 256; m++ {
 						masks = append(masks, m)
 					}
-				} else {
+				case n <= 4000:
 					masks = []int{1, 2, 4, 8, 16, 32, 64, 128, 255}
+				default:
+					masks = []int{1, 128, 255}
 				}
 				step := 1
 				if n > 20000 && r.Tier != "thorough" {
